@@ -124,3 +124,56 @@ Fixpoint render_all (i : invalid) : rtree :=
   | Ok r => RT r
   | Exn e => RTRaise e
   end.
+
+(* ---------- the InvalidArgsError / InvalidReturnError message (signature._get_arg_fail_message) ----------
+   One line per entry; what is modelled is the line structure: the indentation level of every line,
+   in order (level = leading blanks / 4).  Texts are abstract.  A ContainerErr hands its prefix on as
+   the indentation of its child, so the child starts again at level 0 - as the code does. *)
+Fixpoint msg_levels (l : nat) (i : invalid) : list nat :=
+  match i with
+  | Invalid e _ _ => msg_levels_err l e
+  end
+with msg_levels_err (l : nat) (e : errtype) : list nat :=
+  match e with
+  | TypeErr _ | CoercionErr _ _ | MissingKeyErr | CustomErr _ => [l]
+  | PredicateErrs ps => l :: map (fun _ => S l) ps
+  | ExtraKeysErr _ => [l; S l]
+  | ContainerErr c => msg_levels 0 c
+  | UnionErrs xs => l :: flat_map (msg_levels (S l)) xs
+  | SetErrs xs => l :: flat_map (msg_levels (S l)) xs
+  | KeyErrs ks => l :: flat_map (fun kv => msg_levels (S l) (snd kv)) ks
+  | IndexErrs ix => l :: flat_map (fun kv => msg_levels (S l) (snd kv)) ix
+  | MapErr ks =>
+      l :: flat_map (fun k => match fst (snd k) with Some a => msg_levels (S l) a | None => [] end
+                              ++ match snd (snd k) with Some b => msg_levels (S l) b | None => [] end) ks
+  end.
+
+(* what the error tree holds: failures (one per predicate, per type / coercion / missing-key / unknown-keys /
+   custom error) and container nodes (one header each; ContainerErr has none) *)
+Fixpoint failures (i : invalid) : nat :=
+  match i with Invalid e _ _ => failures_err e end
+with failures_err (e : errtype) : nat :=
+  match e with
+  | TypeErr _ | CoercionErr _ _ | MissingKeyErr | CustomErr _ | ExtraKeysErr _ => 1
+  | PredicateErrs ps => length ps
+  | ContainerErr c => failures c
+  | UnionErrs xs | SetErrs xs => list_sum (map failures xs)
+  | KeyErrs ks => list_sum (map (fun kv => failures (snd kv)) ks)
+  | IndexErrs ix => list_sum (map (fun kv => failures (snd kv)) ix)
+  | MapErr ks => list_sum (map (fun k => match fst (snd k) with Some a => failures a | None => 0 end
+                                         + match snd (snd k) with Some b => failures b | None => 0 end) ks)
+  end.
+
+Fixpoint headers (i : invalid) : nat :=
+  match i with Invalid e _ _ => headers_err e end
+with headers_err (e : errtype) : nat :=
+  match e with
+  | TypeErr _ | CoercionErr _ _ | MissingKeyErr | CustomErr _ => 0
+  | PredicateErrs _ | ExtraKeysErr _ => 1
+  | ContainerErr c => headers c
+  | UnionErrs xs | SetErrs xs => S (list_sum (map headers xs))
+  | KeyErrs ks => S (list_sum (map (fun kv => headers (snd kv)) ks))
+  | IndexErrs ix => S (list_sum (map (fun kv => headers (snd kv)) ix))
+  | MapErr ks => S (list_sum (map (fun k => match fst (snd k) with Some a => headers a | None => 0 end
+                                            + match snd (snd k) with Some b => headers b | None => 0 end) ks))
+  end.
